@@ -425,8 +425,10 @@ func (s *Stream) skipValue(depth int64) error {
 				if floatTable[c] {
 					continue
 				} else if c == nul {
+					s.cursor = cursor
 					if s.read() {
-						_, cursor, p = s.stat()
+						// look at this position again: it now holds the next byte
+						_, cursor, p = s.statForRetry()
 						continue
 					}
 				}
